@@ -192,8 +192,7 @@ deriving DecidableEq, Repr, Inhabited
 def encodeLabel : LabelMode → Nat → Nat → Outcome Int
   | .absolute, _, dest => .ok (toSigned 4 (dest % 4294967296))
   | .relative, cur, dest => .ok (toSigned 4 (wrapTo 4 ((dest : Int) - (cur : Int))))
-  | .index20, _, dest =>
-    if dest % 20 != 0 then .panic "assertion `left == right` failed" else .ok (toSigned 4 (dest / 20 % 4294967296))
+  | .index20, _, dest => .ok (toSigned 4 (dest / 20 % 4294967296))
 
 def lookupLabel (labels : List LabelInfo) (n : String) : Option LabelInfo := labels.find? (·.name == n)
 
@@ -262,10 +261,9 @@ def encodeLabels (mode : LabelMode) (g : Gather) (code : List LStmt) : Outcome (
 
 /-! ### the second (real) encoding pass -/
 
-def encodedBefore : String := "we encoded this successfully before!"
-
-/-- `out.into_iter().filter_map(..)` with one `ArgEncodingState`; an error of `encode_args` is
-`.expect(..)`ed away, i.e. it is a panic -/
+/-- `out.into_iter().filter_map(..)` with one `ArgEncodingState`; an error of `encode_args` (the real
+label offset or time does not fit the parameter the dummy fitted) is reported, and
+`collect_with_recovery` visits the remaining instructions (the result is still that first error) -/
 def secondPass (hasRegs : Bool) : EncState → List LStmt → Outcome (List RawInstr)
   | _, [] => .ok []
   | st, .instr i :: rest =>
@@ -275,7 +273,10 @@ def secondPass (hasRegs : Bool) : EncState → List LStmt → Outcome (List RawI
       | .ok raws => .ok (raw :: raws)
       | .err c => .err c
       | .panic p => .panic p
-    | .err _ => .panic encodedBefore
+    | .err c =>
+      match secondPass hasRegs st rest with
+      | .panic p => .panic p
+      | _ => .err c
     | .panic p => .panic p
   | st, _ :: rest => secondPass hasRegs st rest
 
